@@ -218,6 +218,66 @@ pub fn check_history(u: u8, hist: &[Op]) -> Option<String> {
             return Some(e);
         }
     }
+    check_wild_classes(u, hist)
+}
+
+/// classes() asked BEFORE any observing find, on a third separate replay of the history: queries with repeated
+/// elements and with elements the instance has never seen (the element u lies outside the universe of the
+/// history).  Which query comes first (and so meets the untouched instance) rotates with the history.  A repeated
+/// element may be listed once or once per occurrence - the statement only says that the listing partitions the
+/// queried elements - so repeats are removed from each returned class before the comparison; what is required is
+/// that the classes are disjoint, group exactly the connected elements and come in first-occurrence order.
+fn check_wild_classes(u: u8, hist: &[Op]) -> Option<String> {
+    let n = u as usize;
+    let rq = replay_hist(u, hist);
+    let a = 0u8;
+    let b = u.saturating_sub(1);
+    let mut queries: Vec<Vec<u8>> = vec![
+        vec![u, u],
+        vec![a, a],
+        vec![b, a, b],
+        vec![u, b, u, a],
+        vec![a, u, b, a, u + 1, u],
+        vec![u + 1, a],
+        (0..=u).rev().chain(0..=u).collect(),
+    ];
+    let rot = hist.iter().map(|o| match o { Op::Unite(k, x, y) => 1 + *k + *x as usize * 3 + *y as usize * 7, Op::Find(k, x) => 2 + *k + *x as usize * 5, Op::CloneFrom(_) => 11 }).sum::<usize>() % queries.len();
+    queries.rotate_left(rot);
+    fn dedup<T: PartialEq + Copy>(c: &[T]) -> Vec<T> {
+        let mut o: Vec<T> = vec![];
+        for &x in c {
+            if !o.contains(&x) {
+                o.push(x);
+            }
+        }
+        o
+    }
+    for k in 0..rq.rf.len() {
+        let rf = &rq.rf[k];
+        let cls = |e: u8| -> i32 { if (e as usize) < n { rf[e as usize] as i32 } else { 1000 + e as i32 } };
+        for q in &queries {
+            let mut exp: Vec<Vec<u8>> = vec![];
+            for &e in &dedup(q) {
+                if let Some(c) = exp.iter_mut().find(|c| cls(c[0]) == cls(e)) {
+                    c.push(e);
+                } else {
+                    exp.push(vec![e]);
+                }
+            }
+            let got = rq.ps[k].classes(q);
+            let gotn: Vec<Vec<u8>> = got.iter().map(|c| dedup(c)).collect();
+            if gotn != exp {
+                return Some(format!("Partition instance {}: classes({:?}) asked before any find = {:?}, expected {:?} (repeats within a class ignored)", k, q, got, exp));
+            }
+            let qi: Vec<usize> = q.iter().map(|&x| x as usize).collect();
+            let expi: Vec<Vec<usize>> = exp.iter().map(|c| c.iter().map(|&x| x as usize).collect()).collect();
+            let goti = rq.ips[k].classes(&qi);
+            let gotin: Vec<Vec<usize>> = goti.iter().map(|c| dedup(c)).collect();
+            if gotin != expi {
+                return Some(format!("IntPartition instance {}: classes({:?}) asked before any find = {:?}, expected {:?} (repeats within a class ignored)", k, qi, goti, expi));
+            }
+        }
+    }
     None
 }
 
